@@ -81,8 +81,11 @@ def drive(draw, h, cfg):
         if h.dead:
             break
         h.apply(['restore'])
-        h.failures.extend(h.apply(['build', vers, None, k]))
+        # every fourth crash is a BaseException that is not an Exception (KeyboardInterrupt / SystemExit reaching build)
+        base = draw(st.sampled_from(range(4))) == 0
+        h.failures.extend(h.apply(['build', vers, None, k] + ([{'base': True}] if base else [])))
         h.stats['c02_crash_runs'] += 1
+        h.stats['c02_crash_runs_base_exception'] += base
         if h.last.get('has_cache') and (h.rctx.written or h.rctx.hits):
             h.c02_nt += 1
             h.nt_keys.append(['crash', len(h.steps), k])
